@@ -14,7 +14,7 @@ from typing import Any, Callable
 
 from . import absval as av
 from .absval import SStr, SNum, SObj, SBool, SOpaque, HDict, ReprDict, Undecided, as_sstr, is_strlike
-from .core import AnalysisError, Repo, PKG_NAME, norm, fold, NotConstant
+from .core import AnalysisError, UnorderedIteration, Repo, PKG_NAME, norm, fold, NotConstant
 from .pyfacts import Facts, dotted
 
 
@@ -643,10 +643,12 @@ class Frame:
 
     # -- iteration -------------------------------------------------------------------------------
 
-    def iterate(self, v: Any) -> list:
+    def iterate(self, v: Any, unordered_ok: bool = False) -> list:
         if isinstance(v, (list, tuple)):
             return list(v)
         if isinstance(v, (set, frozenset)):
+            if not unordered_ok:
+                raise UnorderedIteration(f"iteration order of a set is unspecified ({self.qual}): the result would depend on hashing")
             return sorted(v, key=repr)
         if isinstance(v, dict):
             return list(v.keys())
